@@ -661,7 +661,7 @@ class Progress(JupyterMixin, RenderHook):
             self.console.push_render_hook(self)
             try:
                 self.refresh()
-            except Exception:
+            except BaseException:  # KeyboardInterrupt / SystemExit must not leave the terminal hooked either
                 # undo the hidden cursor, the io redirection and the render hook
                 self.stop()
                 raise
